@@ -783,8 +783,9 @@ func TestCheck(t *testing.T) {
 			var paths []xpath
 			switch {
 			case f.Name == "multi-faun", f.Name == "multi", f.Name == "multi-srih" && r.Thorough():
-				if f.Name == "multi-faun" || r.Thorough() {
-					// plan J (ext_many_test.go): many of a kind in one block
+				if f.Name == "multi-faun" {
+					// plan J (ext_many_test.go): many of a kind in one block (the Notary histories need the
+					// family with every hardfork; on multi / multi-srih neotest cannot build their witnesses)
 					paths = manyPaths(r.Thorough(), true, r.Thorough())
 				}
 				paths = append(paths, crossPaths(r.Thorough(), 6)...)
